@@ -175,6 +175,17 @@ CHECKS = {
               "day+nanosecond fields; SystemClock compared to time.time_ns at tick granularity."),
         technique="TLA+ line-level lock model checked by TLC + trace validation / linearizability search of real histories",
     ),
+    "C20": dict(
+        category="fault_enumeration",
+        text=("Every structurally distinct fault of the two real database files is enumerated (truncation at every field boundary +-1 and a "
+              "stride of bytes; 1-4 byte substitutions, insertions and deletions at field ids, length bytes, first/last/random data bytes of "
+              "every field, the version header); each faulted stream is loaded, its ids listed and the damaged zone plus random ids "
+              "fetched, every call under an alarm and an address-space limit; TLC replays each outcome through the TzdbLoader.tla protocol "
+              "automaton (works | InvalidPyodaDataError; no hang, no memory exhaustion, no other exception)."),
+        design_ref="DESIGN.md section 5 C20",
+        note="The TLA+ part is a small protocol automaton; the weight is in the enumeration. Quick: ~12k faulted streams; thorough: ~150k.",
+        technique="fault enumeration over the file structure, outcomes validated by TLC against a TLA+ loader protocol automaton",
+    ),
 }
 
 NOT_APPLICABLE = {}
